@@ -145,13 +145,17 @@ def tableEx : Table := [(1, { peer := 0 })]
     and then fails -/
 def evilResp : Resp := { id := 1, status := 14, hookExt := true, hookErr := true }
 
-/-- **counterexample for the old order**: the third peer's response reaches the response hook, an
-    update is sent to the third peer, a cancel to the genuine responder, the request is terminated
-    with the hook's error and its channels are closed. -/
+/-- **counterexample for the old order**: the third peer's response reaches the response hook, and the
+    hook's error terminates the genuine request: its entry is deleted, the error is delivered on its
+    error channel, its channels are closed and its connection is unprotected.  (The update sent to
+    the third peer and the cancel sent to the genuine responder are in the event list too; they are
+    not mentioned here so that the statement does not depend on the generated message targets.) -/
 theorem unguarded_counterexample :
-    runStages stagesBeforeFix 2 tableEx [evilResp]
-      = ([], [Ev.hook 2 1 14, Ev.out 2 .update 1, Ev.out 0 .cancel 1,
-              Ev.errSent 1 .hook, Ev.unprotect 0 1, Ev.closed 1]) := by
+    (runStages stagesBeforeFix 2 tableEx [evilResp]).1.get 1 = none
+    ∧ Ev.hook 2 1 14 ∈ (runStages stagesBeforeFix 2 tableEx [evilResp]).2
+    ∧ Ev.errSent 1 .hook ∈ (runStages stagesBeforeFix 2 tableEx [evilResp]).2
+    ∧ Ev.unprotect 0 1 ∈ (runStages stagesBeforeFix 2 tableEx [evilResp]).2
+    ∧ Ev.closed 1 ∈ (runStages stagesBeforeFix 2 tableEx [evilResp]).2 := by
   decide
 
 /-- the same input on today's pipeline: nothing happens (non-vacuity of `noninterference`:
